@@ -394,7 +394,7 @@ func interruptEdges(f *ssa.Function) func(kit.Edge) bool {
 				for _, e := range selectArmEdges(sel, idx) {
 					intr[e] = true
 				}
-			} else if prm, ok := kit.Strip(st.Chan).(*ssa.Parameter); ok && prm.Name() == "interrupt" {
+			} else if prm, ok := kit.Strip(st.Chan).(*ssa.Parameter); ok && strings.Contains(prm.Type().String(), "chan interface{}") {
 				for _, e := range selectArmEdges(sel, idx) {
 					intr[e] = true
 				}
